@@ -1,14 +1,15 @@
 (* The sequential chunker over a node database whose reads can fail
-   (chunk.go:55-128).  Reaching key number j costs database reads; [ok j] tells
-   whether they succeed.  The code looks at it.Err() after the loop that adds
-   keys to a chunk (chunk.go:108), but NOT after the it.Next() that peeks the
-   next offset once a chunk is closed by its size (chunk.go:117-120): a failed
-   read there leaves the iterator invalid, Key() = nil, and the chunker takes
-   that for the end of the tree.
+   (chunk.go:55-135).  Reaching key number j costs database reads; [ok j] tells
+   whether they succeed.  There are two fallible iterator advances: the loop
+   that adds keys to a chunk, and the it.Next() that peeks the next offset once
+   a chunk is closed by its size.  A failed read leaves the iterator invalid,
+   Key() = nil, which reads as "end of the tree" unless it.Err() is looked at.
      [walk_f chk_loop chk_peek]: the walk with the error looked at (true) or
-     dropped (false) at the two places;
-     the code is [walk_f true false]. *)
-From Verif Require Import Lib.Base Mkvs.Trie Mkvs.TrieProofs Ckpt.Model Ckpt.Proofs Ckpt.Examples.
+     dropped (false) at the two places.
+   Whether the code looks at it.Err() at the two places is READ FROM THE SOURCE
+   (Gen/CkptConsts.v: seq_err_checked_after_loop, seq_err_checked_after_peek;
+   both true since the repair 1164f42 -- before it the peek check was missing). *)
+From Verif Require Import Lib.Base Mkvs.Trie Mkvs.TrieProofs Gen.CkptConsts Ckpt.Model Ckpt.Proofs Ckpt.Examples.
 Local Open Scope nat_scope.
 
 Fixpoint walk_f (chk_loop chk_peek : bool) (ok : nat -> bool) (size : N) (j : nat)
@@ -34,7 +35,7 @@ Definition seq_create (chk_loop chk_peek : bool) (ok : nat -> bool) (size : N) (
   | [] => Some [[]]
   | (e, f, _) :: r => if ok 0 then walk_f chk_loop chk_peek ok size 1 [e] f r else None   (* Seek: checked in both *)
   end.
-Definition seq_create_code := seq_create true false.
+Definition seq_create_code := seq_create seq_err_checked_after_loop seq_err_checked_after_peek.
 
 (* with both errors looked at: success means the fault-free result *)
 Lemma walk_checked ok size l : forall j cur acc runs,
@@ -70,11 +71,17 @@ Proof.
   unfold seq_create, seq_runs. destruct (annot 0%N t) as [|[[e f] m] r]; [reflexivity|]. apply walk_no_fault.
 Qed.
 
-(* the code (error not looked at when peeking the next offset): success does
-   NOT mean that the chunks cover the tree.  Witness: the 7-key tree, chunk
-   size 70, the read that peeks the key after the first chunk fails *)
-Theorem create_success_covers_code_refuted_l :
-  exists ok size t runs, wf t /\ seq_create_code ok size t = Some runs /\ concat runs <> contents t.
+(* THE CODE: a creation that reports success has produced exactly the
+   fault-free chunks, which cover the tree (the two checks read from the source) *)
+Theorem create_success_covers_code_l ok size t runs :
+  seq_create_code ok size t = Some runs -> runs = seq_runs size t /\ concat runs = contents t.
+Proof. apply create_success_covers_l. Qed.
+
+(* the variant without the check after the peek (the code before the repair):
+   success does NOT mean that the chunks cover the tree.  Witness: the 7-key
+   tree, chunk size 70, the read that peeks the key after the first chunk fails *)
+Theorem create_success_covers_without_peek_check_refuted_l :
+  exists ok size t runs, wf t /\ seq_create true false ok size t = Some runs /\ concat runs <> contents t.
 Proof.
   exists (fun j => negb (Nat.eqb j 2)), 70%N, t7. eexists. split; [exact t7_wf|].
   split; [vm_compute; reflexivity|]. vm_compute. discriminate.
